@@ -1,3 +1,4 @@
+import Rawr.Proofs.RustImpAgree_Eval
 import Rawr.Props.C19
 import Rawr.Proofs.RustSearchAgree_Rules
 /-!
